@@ -43,7 +43,7 @@ static bool valid(Cls c, const Bytes& b) {
     switch (c) {
     case MAC: return (b[0] & 1) == 0;                                           // unicast (I/G bit clear)
     case IP4: return b[0] >= 1 && b[0] <= 223 && b[0] != 127 && b[3] >= 1 && b[3] <= 254;   // no multicast / broadcast / 0.x
-    case IP6: return b[0] != 0xff && !(b[0] == 0 && b[1] == 0);                 // no multicast, not ::/16
+    case IP6: return !(b[0] == 0xff && b[1] == 0x02) && !(b[0] == 0 && b[1] == 0);   // not ff02::/16 (the documented wildcard), not ::/16
     case VID: return b[0] < 16;
     default: return true;
     }
@@ -53,6 +53,8 @@ static Bytes fresh(Cls c, vh::Rng& rng) {
     for (;;) { Bytes b(width(c)); for (size_t i = 0; i < b.size(); ++i) b[i] = (uint8_t)rng.below(256);
         if (c == VID) b[0] &= 0x0f;
         if (c == IP6 && rng.below(4)) { static const uint8_t lead[] = {0x20, 0x26, 0xfd, 0xfe}; b[0] = lead[rng.below(4)]; if (b[0] == 0xfe) b[1] = 0x80; }
+        // multicast scopes other than link-local (ff02) have no documented exemption: every address is matched there too
+        if (c == IP6 && rng.below(7) == 0) { static const uint8_t scope[] = {0x01, 0x05, 0x0e, 0x12, 0x08}; b[0] = 0xff; b[1] = scope[rng.below(5)]; }
         if (valid(c, b)) return b; }
 }
 // a value close to x: one bit flipped, one byte replaced, bytes swapped, +-1
